@@ -65,6 +65,7 @@ type frame struct {
 	phitemps         []value
 	lenient          bool
 	depth            int
+	phisDone         bool
 }
 
 var rtErrType = func() types.Type {
@@ -220,6 +221,9 @@ func visitInstr(fr *frame, instr ssa.Instruction) continuation {
 				succ = 0
 			}
 		case sym:
+			if ex.tryMerge(fr, c.t) {
+				return kJump
+			}
 			if ex.decide(c.t) {
 				succ = 0
 			}
@@ -565,6 +569,10 @@ func executePhis(fr *frame) []ssa.Instruction {
 		}
 	}
 	nonPhis := fr.block.Instrs[firstNonPhi:]
+	if fr.phisDone {
+		fr.phisDone = false
+		return nonPhis
+	}
 	if firstNonPhi > 0 {
 		phis := fr.block.Instrs[:firstNonPhi]
 		predIndex := slices.Index(fr.block.Preds, fr.prevBlock)
